@@ -129,6 +129,9 @@ def cases(block):
         for cls in classes:
             for a, b in itertools.permutations(range(len(V)), 2):
                 yield {"sequence": [seq_probe(V[a], ph, cls), seq_probe(V[b], ph, cls)]}
+            # the caller keeps ONE grid object and renders several droplets on it
+            for gv in V:
+                yield {"sequence": [dict(seq_probe(gv, ph + 0.05 * i, cls), share_grid=True) for i in range(4)]}
         return
     if k == "cart-sph":
         dim = block["dim"]
@@ -290,7 +293,7 @@ def run_case(case, ctx):
         return core.run_sequence_in_fork(run_case, case["sequence"], ctx, tag={"history": True})
     k = case.get("kind")
     g = case["grid"]
-    grid = geom.make_grid(g)
+    grid = geom.make_grid(g, share=bool(case.get("share_grid")))
     if k == "dim-mismatch":
         spec = {"cls": case["cls"], "centre": [0.0] * case["ddim"], "R": 1.0, "width": 0.5, "amps": [0.1]}
         drop = make_drop(spec)
